@@ -3,4 +3,441 @@ import MelModel.Seal
 import MelModel.Lemmas.Counts
 import MelModel.Lemmas.FeeMult
 namespace Mel
+open Mel.Gen
+
+/-! ### `bytesLt` is asymmetric -/
+
+theorem bytesLt_asymm : ∀ (a b : List UInt8), bytesLt a b = true → bytesLt b a = false := by
+  intro a
+  induction a with
+  | nil => intro b _; cases b <;> simp [bytesLt]
+  | cons x xs ih =>
+    intro b h
+    cases b with
+    | nil => simp [bytesLt] at h
+    | cons y ys =>
+      simp only [bytesLt] at h ⊢
+      by_cases hxy : x < y
+      · have hyx : ¬ y < x := UInt8.lt_asymm hxy
+        simp [hxy, hyx]
+      · by_cases hyx : y < x
+        · simp [hxy, hyx] at h
+        · simp only [hxy, hyx, if_false] at h ⊢
+          exact ih ys h
+
+/-! ### what the request selectors demand -/
+
+theorem canonicalPoolKey_some {data : Bytes} {k : PoolKey} (h : canonicalPoolKey data = some k) :
+    bytesLt k.left.toBytes k.right.toBytes = true ∧ k.left ≠ .newCustom ∧ k.right ≠ .newCustom ∧
+      k.toBytes = data := by
+  unfold canonicalPoolKey at h
+  split at h
+  · next k' _ =>
+    split at h
+    · next hc =>
+      cases h
+      simp only [Bool.and_eq_true, decide_eq_true_eq, ne_eq] at hc
+      exact ⟨hc.1.1.1, hc.1.1.2, hc.1.2, hc.2⟩
+    · cases h
+  · cases h
+
+theorem isSwapRequest_spec {s : State} {tx : Tx} (h : isSwapRequest s tx = true) :
+    tx.kind = .swap ∧ ∃ k o, canonicalPoolKey tx.data = some k ∧ tx.outputs.head? = some o ∧
+      (o.denom = k.left ∨ o.denom = k.right) := by
+  unfold isSwapRequest at h
+  simp only [Bool.and_eq_true, decide_eq_true_eq] at h
+  refine ⟨h.1, ?_⟩
+  have h2 := h.2
+  split at h2
+  · cases h2
+  · next o0 rest ho =>
+    simp only [Bool.and_eq_true] at h2
+    have h3 := h2.2
+    split at h3
+    · cases h3
+    · next k hk =>
+      split at h3
+      · cases h3
+      · simp only [Bool.and_eq_true, Bool.or_eq_true, decide_eq_true_eq] at h3
+        exact ⟨k, o0, hk, by rw [ho]; rfl, h3.2⟩
+
+theorem isDepositRequest_spec {s : State} {tx : Tx} (h : isDepositRequest s tx = true) :
+    tx.kind = .liqDeposit ∧ ∃ k, canonicalPoolKey tx.data = some k := by
+  unfold isDepositRequest at h
+  simp only [Bool.and_eq_true, decide_eq_true_eq] at h
+  refine ⟨h.1, ?_⟩
+  have h2 := h.2
+  split at h2
+  · simp only [Bool.and_eq_true] at h2
+    have h3 := h2.2
+    split at h3
+    · cases h3
+    · next k hk => exact ⟨k, hk⟩
+  · cases h2
+
+theorem isWithdrawRequest_spec {env : Env} {s : State} {tx : Tx} (h : isWithdrawRequest env s tx = true) :
+    tx.kind = .liqWithdraw ∧ ∃ k, canonicalPoolKey tx.data = some k := by
+  unfold isWithdrawRequest at h
+  simp only [Bool.and_eq_true, decide_eq_true_eq] at h
+  refine ⟨h.1, ?_⟩
+  have h2 := h.2
+  split at h2
+  · simp only [Bool.and_eq_true] at h2
+    have h3 := h2.2
+    split at h3
+    · cases h3
+    · next k hk => exact ⟨k, hk⟩
+  · cases h2
+
+/-! ### coins untouched away from request outputs -/
+
+theorem CoinMap.getCoin_insertCoin_ne (m : CoinMap) {id id' : CoinID} (d : CoinDataHeight) (t : Bool)
+    (hne : id ≠ id') : (m.insertCoin id' d t).getCoin id = m.getCoin id := by
+  unfold CoinMap.insertCoin CoinMap.getCoin
+  simp only
+  split <;> exact AList.get_set_ne _ _ hne
+
+theorem CoinMap.getCoin_removeCoin_ne {m m' : CoinMap} {id id' : CoinID} {t : Bool}
+    (h : m.removeCoin id' t = .ok m') (hne : id ≠ id') : m'.getCoin id = m.getCoin id := by
+  unfold CoinMap.removeCoin at h
+  unfold CoinMap.getCoin
+  split at h
+  · split at h
+    · simp only at h
+      split at h
+      · cases h
+      · cases h; exact AList.get_del_ne _ hne
+    · cases h; exact AList.get_del_ne _ hne
+  · cases h; exact AList.get_del_ne _ hne
+
+theorem Outcome.foldlM'_inv_mem {α β} (P : β → Prop) (f : β → α → Outcome β) :
+    ∀ (l : List α), (∀ b a b', a ∈ l → P b → f b a = .ok b' → P b') →
+      ∀ (b b' : β), P b → Outcome.foldlM' f b l = .ok b' → P b' := by
+  intro l
+  induction l with
+  | nil =>
+    intro _ b b' hb h
+    simp only [Outcome.foldlM'] at h
+    cases h; exact hb
+  | cons a as ih =>
+    intro hf b b' hb h
+    simp only [Outcome.foldlM'] at h
+    split at h
+    · next b1 hb1 =>
+      exact ih (fun b a' b' ha' => hf b a' b' (List.mem_cons_of_mem _ ha')) b1 b'
+        (hf b a b1 List.mem_cons_self hb hb1) h
+    · cases h
+    · cases h
+
+/-- the coin at `id`, the transaction list and the height are as before -/
+def CoinsSameAt (id : CoinID) (s s' : State) : Prop :=
+  s'.coins.getCoin id = s.coins.getCoin id ∧ s'.txs = s.txs ∧ s'.height = s.height
+
+theorem CoinsSameAt.refl (id : CoinID) (s : State) : CoinsSameAt id s s := ⟨rfl, rfl, rfl⟩
+
+theorem CoinsSameAt.trans {id : CoinID} {a b c : State} (h1 : CoinsSameAt id a b)
+    (h2 : CoinsSameAt id b c) : CoinsSameAt id a c :=
+  ⟨h2.1.trans h1.1, h2.2.1.trans h1.2.1, h2.2.2.trans h1.2.2⟩
+
+theorem outCoinID_ne {tx : Tx} {id : CoinID} (i : Nat) (h : tx.hash ≠ id.txhash) : id ≠ outCoinID tx i := by
+  intro e; apply h; rw [e]; rfl
+
+theorem processSwapsForPool_coins (id : CoinID) (k : PoolKey) (s : State) (swaps : List Tx) (s' : State)
+    (h : processSwapsForPool k s swaps = .ok s') (hne : ∀ tx ∈ swaps, tx.hash ≠ id.txhash) :
+    CoinsSameAt id s s' := by
+  unfold processSwapsForPool at h
+  split at h
+  · cases h
+  · simp only at h
+    split at h
+    · cases h
+    · cases h
+    · obtain ⟨coins, hc, h2⟩ := Outcome.bind_eq_ok h
+      cases h2
+      refine ⟨?_, rfl, rfl⟩
+      refine Outcome.foldlM'_inv_mem (fun c : CoinMap => c.getCoin id = s.coins.getCoin id) _ swaps ?_
+        _ _ rfl hc
+      intro b tx b' htx hb hf
+      obtain ⟨cd, _, hf⟩ := Outcome.bind_eq_ok hf
+      cases hf
+      rw [CoinMap.getCoin_insertCoin_ne _ _ _ (outCoinID_ne 0 (hne tx htx))]
+      exact hb
+
+theorem processDepositsForPool_coins (id : CoinID) (env : Env) (k : PoolKey) (s : State) (deps : List Tx)
+    (s' : State) (h : processDepositsForPool env k s deps = .ok s')
+    (hne : ∀ tx ∈ deps, tx.hash ≠ id.txhash) : CoinsSameAt id s s' := by
+  unfold processDepositsForPool at h
+  simp only at h
+  split at h
+  · cases h
+  · cases h
+  · obtain ⟨coins, hc, h2⟩ := Outcome.bind_eq_ok h
+    cases h2
+    refine ⟨?_, rfl, rfl⟩
+    refine Outcome.foldlM'_inv_mem (fun c : CoinMap => c.getCoin id = s.coins.getCoin id) _ deps ?_
+      _ _ rfl hc
+    intro b tx b' htx hb hf
+    obtain ⟨v, _, hf⟩ := Outcome.bind_eq_ok hf
+    split at hf
+    · cases hf
+      rw [CoinMap.getCoin_insertCoin_ne _ _ _ (outCoinID_ne 0 (hne tx htx))]
+      exact hb
+    · rw [CoinMap.getCoin_removeCoin_ne hf (outCoinID_ne 1 (hne tx htx)),
+        CoinMap.getCoin_insertCoin_ne _ _ _ (outCoinID_ne 0 (hne tx htx))]
+      exact hb
+
+theorem processWithdrawalsForPool_coins (id : CoinID) (k : PoolKey) (s : State) (reqs : List Tx)
+    (s' : State) (h : processWithdrawalsForPool k s reqs = .ok s')
+    (hne : ∀ tx ∈ reqs, tx.hash ≠ id.txhash) : CoinsSameAt id s s' := by
+  unfold processWithdrawalsForPool at h
+  simp only at h
+  split at h
+  · cases h
+  · split at h
+    · cases h; exact CoinsSameAt.refl _ _
+    · split at h
+      · cases h
+      · cases h
+      · obtain ⟨coins, hc, h2⟩ := Outcome.bind_eq_ok h
+        cases h2
+        refine ⟨?_, rfl, rfl⟩
+        refine Outcome.foldlM'_inv_mem (fun c : CoinMap => c.getCoin id = s.coins.getCoin id) _ reqs ?_
+          _ _ rfl hc
+        intro b tx b' htx hb hf
+        obtain ⟨vl, _, hf⟩ := Outcome.bind_eq_ok hf
+        obtain ⟨vr, _, hf⟩ := Outcome.bind_eq_ok hf
+        cases hf
+        rw [CoinMap.getCoin_insertCoin_ne _ _ _ (outCoinID_ne 1 (hne tx htx)),
+          CoinMap.getCoin_insertCoin_ne _ _ _ (outCoinID_ne 0 (hne tx htx))]
+        exact hb
+
+theorem mem_transactionsForPool {reqs : List Tx} {k : PoolKey} {tx : Tx}
+    (h : tx ∈ transactionsForPool reqs k) : tx ∈ reqs := by
+  unfold transactionsForPool at h
+  exact (List.mem_filter.mp h).1
+
+theorem processSwaps_coins (id : CoinID) (s s' : State) (h : processSwaps s = .ok s')
+    (hne : ∀ tx ∈ s.txs, isSwapRequest s tx = true → tx.hash ≠ id.txhash) : CoinsSameAt id s s' := by
+  unfold processSwaps at h
+  refine Outcome.foldlM'_inv (CoinsSameAt id s) _ ?_ _ _ _ (CoinsSameAt.refl id s) h
+  intro b a b' hb hf
+  refine hb.trans (processSwapsForPool_coins id _ _ _ _ hf ?_)
+  intro tx htx
+  have := List.mem_filter.mp (mem_transactionsForPool htx)
+  exact hne tx this.1 this.2
+
+theorem processDeposits_coins (id : CoinID) (env : Env) (s s' : State) (h : processDeposits env s = .ok s')
+    (hne : ∀ tx ∈ s.txs, isDepositRequest s tx = true → tx.hash ≠ id.txhash) : CoinsSameAt id s s' := by
+  unfold processDeposits at h
+  refine Outcome.foldlM'_inv (CoinsSameAt id s) _ ?_ _ _ _ (CoinsSameAt.refl id s) h
+  intro b a b' hb hf
+  refine hb.trans (processDepositsForPool_coins id _ _ _ _ _ hf ?_)
+  intro tx htx
+  have := List.mem_filter.mp (mem_transactionsForPool htx)
+  exact hne tx this.1 this.2
+
+theorem processWithdrawals_coins (id : CoinID) (env : Env) (s s' : State)
+    (h : processWithdrawals env s = .ok s')
+    (hne : ∀ tx ∈ s.txs, isWithdrawRequest env s tx = true → tx.hash ≠ id.txhash) :
+    CoinsSameAt id s s' := by
+  unfold processWithdrawals at h
+  refine Outcome.foldlM'_inv (CoinsSameAt id s) _ ?_ _ _ _ (CoinsSameAt.refl id s) h
+  intro b a b' hb hf
+  refine hb.trans (processWithdrawalsForPool_coins id _ _ _ _ hf ?_)
+  intro tx htx
+  have := List.mem_filter.mp (mem_transactionsForPool htx)
+  exact hne tx this.1 this.2
+
+theorem processPegging_coins (id : CoinID) (s s' : State) (h : processPegging s = .ok s') :
+    CoinsSameAt id s s' := by
+  unfold processPegging at h
+  simp only at h
+  obtain ⟨⟨a, b⟩, _, h⟩ := Outcome.bind_eq_ok h
+  simp only at h
+  obtain ⟨sm, _, h⟩ := Outcome.bind_eq_ok h
+  split at h
+  · cases h
+  · obtain ⟨sm1, _, h⟩ := Outcome.bind_eq_ok h
+    obtain ⟨sm2, _, h⟩ := Outcome.bind_eq_ok h
+    cases h; exact ⟨rfl, rfl, rfl⟩
+
+theorem applyTip909_coins (id : CoinID) (s s' : State) (h : applyTip909 s = .ok s') :
+    CoinsSameAt id s s' := by
+  unfold applyTip909 at h
+  simp only at h
+  split at h
+  · cases h
+  · split at h
+    · cases h
+    · obtain ⟨⟨sm', mel, x⟩, _, h⟩ := Outcome.bind_eq_ok h
+      simp only at h
+      split at h
+      · cases h
+      · split at h
+        · cases h
+        · obtain ⟨⟨es', y, z⟩, _, h⟩ := Outcome.bind_eq_ok h
+          cases h; exact ⟨rfl, rfl, rfl⟩
+
+/-- the hypothesis of the kind filter, as a statement about hashes -/
+def NoRequestAt (id : CoinID) (txs : List Tx) : Prop :=
+  ∀ tx ∈ txs, tx.hash = id.txhash →
+    (tx.kind ≠ .swap ∧ tx.kind ≠ .liqDeposit ∧ tx.kind ≠ .liqWithdraw) ∨ canonicalPoolKey tx.data = none
+
+theorem presealMelmint_coins (id : CoinID) (env : Env) (s s' : State) (h : presealMelmint env s = .ok s')
+    (hnr : NoRequestAt id s.txs) : CoinsSameAt id s s' := by
+  unfold presealMelmint at h
+  simp only at h
+  split at h
+  · cases h
+  · obtain ⟨s1, h1, h⟩ := Outcome.bind_eq_ok h
+    obtain ⟨s2, h2, h⟩ := Outcome.bind_eq_ok h
+    obtain ⟨s3, h3, h⟩ := Outcome.bind_eq_ok h
+    have c0 : CoinsSameAt id s (createBuiltins s) := ⟨rfl, rfl, rfl⟩
+    have c1 : CoinsSameAt id s s1 := by
+      refine c0.trans (processSwaps_coins id _ _ h1 ?_)
+      intro tx htx hreq he
+      obtain ⟨hk, k, _, hck, _⟩ := isSwapRequest_spec hreq
+      rcases hnr tx htx he with hh | hh
+      · exact hh.1 hk
+      · rw [hck] at hh; cases hh
+    have c2 : CoinsSameAt id s s2 := by
+      refine c1.trans (processDeposits_coins id _ _ _ h2 ?_)
+      intro tx htx hreq he
+      rw [c1.2.1] at htx
+      obtain ⟨hk, k, hck⟩ := isDepositRequest_spec hreq
+      rcases hnr tx htx he with hh | hh
+      · exact hh.2.1 hk
+      · rw [hck] at hh; cases hh
+    have c3 : CoinsSameAt id s s3 := by
+      refine c2.trans (processWithdrawals_coins id _ _ _ h3 ?_)
+      intro tx htx hreq he
+      rw [c2.2.1] at htx
+      obtain ⟨hk, k, hck⟩ := isWithdrawRequest_spec hreq
+      rcases hnr tx htx he with hh | hh
+      · exact hh.2.2 hk
+      · rw [hck] at hh; cases hh
+    exact c3.trans (processPegging_coins id _ _ h)
+
+theorem sealState_coins (id : CoinID) (env : Env) (s : State) (a : Option ProposerAction) (ss : Sealed)
+    (h : sealState env s a = .ok ss) (hnr : NoRequestAt id s.txs)
+    (hrw : id.txhash ≠ env.rewardId s.height) : ss.st.coins.getCoin id = s.coins.getCoin id := by
+  unfold sealState at h
+  obtain ⟨s1, h1, h⟩ := Outcome.bind_eq_ok h
+  split at h
+  · cases h
+  · obtain ⟨s2, h2, h⟩ := Outcome.bind_eq_ok h
+    have c1 := presealMelmint_coins id env s s1 h1 hnr
+    have c2 : CoinsSameAt id s s2 := by
+      split at h2
+      · exact c1.trans (applyTip909_coins id _ _ h2)
+      · cases h2; exact c1
+    split at h
+    · cases h; exact c2.1
+    · next act =>
+      obtain ⟨s3, h3, h⟩ := Outcome.bind_eq_ok h
+      cases h
+      simp only
+      unfold applyProposerAction collectProposerFee at h3
+      simp only at h3
+      split at h3
+      · cases h3
+      · cases h3
+        simp only
+        rw [CoinMap.getCoin_insertCoin_ne]
+        · exact c2.1
+        · intro e
+          apply hrw
+          rw [e, c2.2.2]
+
+/-! ### pool arithmetic -/
+
+theorem satAdd128_of_le {a b : Nat} (h : a + b ≤ U128_MAX) : satAdd128 a b = a + b := by
+  unfold satAdd128; omega
+
+/-- `a ≤ A` ⇒ the constant-product share (less fee) of `B` is at most `B` -/
+theorem share_le {a A B : Nat} (ha : a ≤ A) : a * B * 995 / (A * 1000) ≤ B := by
+  apply Nat.div_le_of_le_mul
+  have h1 : a * B ≤ A * B := Nat.mul_le_mul_right B ha
+  have e : A * 1000 * B = A * B * 1000 := by ac_rfl
+  rw [e]; omega
+
+theorem share_lt {a A B : Nat} (ha : a ≤ A) (hA : 0 < A) (hB : 0 < B) : a * B * 995 / (A * 1000) < B := by
+  have hpos : 0 < A * 1000 := by omega
+  rw [Nat.div_lt_iff_lt_mul hpos]
+  have h1 : a * B ≤ A * B := Nat.mul_le_mul_right B ha
+  have h2 : 0 < A * B := Nat.mul_pos hA hB
+  have e : B * (A * 1000) = A * B * 1000 := by ac_rfl
+  rw [e]; omega
+
+/-- everything `swap_many` returning `ok` tells us, when the sums fit a u128 -/
+theorem swapMany_ok {p p' : PoolState} {l r lw rw : Nat}
+    (hfit : p.lefts + l ≤ U128_MAX ∧ p.rights + r ≤ U128_MAX)
+    (h : p.swapMany l r = .ok (p', lw, rw)) :
+    0 < p.lefts + l ∧ 0 < p.rights + r ∧
+    rw = l * (p.rights + r) * 995 / ((p.lefts + l) * 1000) ∧
+    lw = r * (p.lefts + l) * 995 / ((p.rights + r) * 1000) ∧
+    p'.lefts = p.lefts + l - lw ∧ p'.rights = p.rights + r - rw ∧ p'.liqs = p.liqs := by
+  unfold PoolState.swapMany at h
+  simp only [satAdd128_of_le hfit.1, satAdd128_of_le hfit.2] at h
+  have hl : l * (p.rights + r) * 995 / ((p.lefts + l) * 1000) ≤ p.rights + r := share_le (by omega)
+  have hr : r * (p.lefts + l) * 995 / ((p.rights + r) * 1000) ≤ p.lefts + l := share_le (by omega)
+  have el : satU128 (l * (p.rights + r) * 995 / ((p.lefts + l) * 1000))
+      = l * (p.rights + r) * 995 / ((p.lefts + l) * 1000) := by unfold satU128; omega
+  have er : satU128 (r * (p.lefts + l) * 995 / ((p.rights + r) * 1000))
+      = r * (p.lefts + l) * 995 / ((p.rights + r) * 1000) := by unfold satU128; omega
+  rw [el, er] at h
+  split at h
+  · cases h
+  · split at h
+    · cases h
+    · split at h
+      · cases h
+      · split at h
+        · cases h
+        · split at h
+          · cases h
+          · cases h
+            refine ⟨by omega, by omega, rfl, rfl, rfl, rfl, rfl⟩
+
+theorem mul_1000_le {x y : Nat} (h : x * 1000 ≤ y * 995) : x ≤ y := by omega
+
+theorem swap_product_aux {pl pr l r L R x y : Nat} (hLd : L = pl + l) (hRd : R = pr + r)
+    (hL : 0 < L) (hR : 0 < R) (hx : x * (R * 1000) ≤ r * L * 995) (hy : y * (L * 1000) ≤ l * R * 995) :
+    pl * pr ≤ (L - x) * (R - y) := by
+  have h1 : x * R ≤ r * L := by
+    apply mul_1000_le
+    have e1 : x * (R * 1000) = x * R * 1000 := by ac_rfl
+    rw [e1] at hx; exact hx
+  have h2 : y * L ≤ l * R := by
+    apply mul_1000_le
+    have e1 : y * (L * 1000) = y * L * 1000 := by ac_rfl
+    rw [e1] at hy; exact hy
+  have a1 : L * pr ≤ (L - x) * R := by
+    rw [Nat.sub_mul]
+    have : L * R = L * pr + r * L := by rw [hRd, Nat.mul_add, Nat.mul_comm L r]
+    omega
+  have a2 : R * pl ≤ (R - y) * L := by
+    rw [Nat.sub_mul]
+    have : R * L = R * pl + l * R := by rw [hLd, Nat.mul_add, Nat.mul_comm R l]
+    omega
+  have a3 := Nat.mul_le_mul a1 a2
+  have e1 : L * pr * (R * pl) = pl * pr * (L * R) := by ac_rfl
+  have e2 : (L - x) * R * ((R - y) * L) = (L - x) * (R - y) * (L * R) := by ac_rfl
+  rw [e1, e2] at a3
+  exact Nat.le_of_mul_le_mul_right a3 (Nat.mul_pos hL hR)
+
+theorem swap_product {pl pr l r : Nat} (hL : 0 < pl + l) (hR : 0 < pr + r) :
+    pl * pr ≤ (pl + l - r * (pl + l) * 995 / ((pr + r) * 1000)) *
+              (pr + r - l * (pr + r) * 995 / ((pl + l) * 1000)) :=
+  swap_product_aux rfl rfl hL hR (Nat.div_mul_le_self _ _) (Nat.div_mul_le_self _ _)
+
+theorem pro_rata_aux (T S : Nat) : ∀ vs : List Nat, (vs.map fun v => T * v / S).sum * S ≤ T * vs.sum := by
+  intro vs
+  induction vs with
+  | nil => simp
+  | cons v rest ih =>
+    simp only [List.map_cons, List.sum_cons, Nat.add_mul, Nat.mul_add]
+    have := Nat.div_mul_le_self (T * v) S
+    omega
+
 end Mel
